@@ -1242,28 +1242,24 @@ Lemma all_fixed_guards decode s caps L q :
   guard_query decode all_fixed s caps L q = g_F5_query L q || g_F8_query q.
 Proof. unfold guard_query. cbn [all_fixed fx_F1 fx_F2 fx_F4 fx_F6 fx_F7 fx_F9 fx_F11 negb andb orb]. rewrite !orb_false_r. reflexivity. Qed.
 
-(** the tree as it is: additionally the conveyance of the body (C13-F9) *)
+(** the tree as it is (= all repairs) *)
 Lemma repo_guards decode s caps L q :
-  guard_query decode repo_now s caps L q = g_F5_query L q || g_F8_query q || g_F9_query L q.
-Proof.
-  unfold guard_query. cbn [repo_now set_F9 set_F11 all_fixed fx_F1 fx_F2 fx_F4 fx_F6 fx_F7 fx_F9 fx_F11 negb andb orb].
-  rewrite !orb_false_r. reflexivity.
-Qed.
+  guard_query decode repo_now s caps L q = g_F5_query L q || g_F8_query q.
+Proof. exact (all_fixed_guards decode s caps L q). Qed.
 
 Lemma repo_guards_fire decode find L :
   guards_fire decode find repo_now L =
-  g_F11 L ||
   match find (lookup_of (build_http L)) with
   | None => false
   | Some (rl, caps) =>
     let ans := answer (acc_http decode L) (http_mech L (r_slashes rl) caps) in
-    existsb (fun q => g_F5_query L q || g_F8_query q || g_F9_query L q) (trace ans (rule_prog rl)) ||
+    existsb (fun q => g_F5_query L q || g_F8_query q) (trace ans (rule_prog rl)) ||
     g_F3_adds true (snd (run_prog ans (rule_prog rl))) || g_F5_adds (snd (run_prog ans (rule_prog rl)))
   end.
 Proof.
   unfold guards_fire.
-  change (fx_F11 repo_now) with false. change (fx_F4 repo_now) with true. change (fx_F3 repo_now) with true.
-  cbn [negb andb orb]. f_equal.
+  change (fx_F11 repo_now) with true. change (fx_F4 repo_now) with true. change (fx_F3 repo_now) with true.
+  cbn [negb andb orb].
   destruct (find (lookup_of (build_http L))) as [[rl caps]|]; [|reflexivity]. cbv zeta.
   f_equal. f_equal. apply existsb_ext_all. intro q. apply repo_guards.
 Qed.
@@ -1474,18 +1470,19 @@ Example nonvacuous_pinned :
     Some {| ho_headers := [("X-Q", "v=2")]; ho_cookies := [("c", "application/json")] |}.
 Proof. split; vm_compute; reflexivity. Qed.
 
-(** C13-F9 (open): Envoy conveys the body in the string field [body] (its default): grpcv3 decodes
+(** C13-F9 (fix: 58408fc): Envoy conveys the body in the string field [body] (its default): grpcv3 decodes
     nothing, the HTTP services decode the body; the candidate repair removes the difference *)
 Definition w9_req : lreq :=
   {| l_method := "POST"; l_tls := false; l_host := "a.example.com"; l_rawpath := "/c8/lit"; l_query := "";
      l_hdrs := [("Content-Type", "application/json"); ("Content-Length", "12")];
      l_body := "{""user"":1}"; l_peer := "10.0.0.1"; l_pack := PackBody; l_qpath := false |}.
+Definition tree_F9 := set_F9 false all_fixed.
 Lemma F9_refuted :
-  wf_lreqb w9_req = true /\ g_F9_query w9_req QBody = true /\ guards_fire w_decode w7_find repo_now w9_req = true /\
-  s_handover (serve_decision w_decode w7_find repo_now w9_req) = Some {| ho_headers := [("X-Body", "{""user"":1}")]; ho_cookies := [] |} /\
-  s_handover (serve_envoy w_decode w7_find repo_now w9_req) = Some {| ho_headers := [("X-Body", json_empty_string)]; ho_cookies := [] |} /\
-  guards_fire w_decode w7_find all_fixed w9_req = false /\
-  serve_decision w_decode w7_find all_fixed w9_req = serve_envoy w_decode w7_find all_fixed w9_req.
+  wf_lreqb w9_req = true /\ g_F9_query w9_req QBody = true /\ guards_fire w_decode w7_find tree_F9 w9_req = true /\
+  s_handover (serve_decision w_decode w7_find tree_F9 w9_req) = Some {| ho_headers := [("X-Body", "{""user"":1}")]; ho_cookies := [] |} /\
+  s_handover (serve_envoy w_decode w7_find tree_F9 w9_req) = Some {| ho_headers := [("X-Body", json_empty_string)]; ho_cookies := [] |} /\
+  guards_fire w_decode w7_find repo_now w9_req = false /\
+  serve_decision w_decode w7_find repo_now w9_req = serve_envoy w_decode w7_find repo_now w9_req.
 Proof. repeat split; vm_compute; reflexivity. Qed.
 
 (* ------------------------------------------------------------------ Headers(): the two maps agree apart from the key Host *)
@@ -1621,11 +1618,14 @@ Qed.
 (** C13, the decision service as deployed: conveyed through the X-Forwarded-* headers of a trusted
     proxy, a logical request gives the same method, scheme, host, path and query as when a service
     receives it directly — unless the query is not its own re-encoding (C13-F10) *)
-Theorem deployed_decision_same_url L :
-  wf_lreqb L = true -> nonempty (l_method L) = true -> g_F10 L = false ->
-  url_parts (view_tp L) = url_parts (view_direct L).
+Theorem deployed_decision_same_url fixed10 L :
+  wf_lreqb L = true -> nonempty (l_method L) = true -> fixed10 || negb (g_F10 L) = true ->
+  url_parts (view_tp fixed10 L) = url_parts (view_direct L).
 Proof.
-  intros W Hm G. destruct (wf_parts L W) as (Hh & Hc & Hhost & Hs & Hv & p & Hu).
+  intros W Hm G0. destruct (wf_parts L W) as (Hh & Hc & Hhost & Hs & Hv & p & Hu).
+  assert (G : (if fixed10 then l_query L else reencoded_query (l_query L)) = l_query L).
+  { destruct fixed10; [reflexivity|]. cbn [orb] in G0. unfold g_F10 in G0.
+    apply negb_true_iff, negb_false_iff, String.eqb_eq in G0. exact G0. }
   unfold view_direct. unfold http_hdrs. rewrite strip_untrusted, view_untrusted.
   unfold view_tp, strip, view_of, extract_url, extract_method, url_parts, spec_view_untrusted, tp_headers, tp_conn, http_conn.
   cbn [get values filter map fst snd XFM XFP XFH XFU FWD XFF String.eqb Ascii.eqb Bool.eqb
@@ -1636,13 +1636,13 @@ Proof.
   assert (Nu : nonempty (forwarded_uri L) = true).
   { unfold forwarded_uri. destruct (l_rawpath L); [discriminate | reflexivity]. }
   rewrite Nu. rewrite (escpath_wire_wf _ _ Hs Hv Hu).
-  unfold g_F10 in G. apply negb_false_iff, String.eqb_eq in G.
-  assert (P : parse_forwarded_uri (forwarded_uri L) = Some (l_rawpath L, reencoded_query (l_query L))).
+  assert (P : parse_forwarded_uri fixed10 (forwarded_uri L) =
+              Some (l_rawpath L, if fixed10 then l_query L else reencoded_query (l_query L))).
   { unfold parse_forwarded_uri, forwarded_uri. destruct (nonempty (l_query L)) eqn:Nq.
     - cbn [append]. rewrite (cut_on_qmark_app _ _ Hv).
       pose proof (escpath_wire_wf _ _ Hs Hv Hu) as E. unfold escpath_of_wire in E.
       destruct (GoUrl.set_path (l_rawpath L)) as [[pa rp]|] eqn:Sp.
-      + rewrite E. reflexivity.
+      + rewrite E. destruct fixed10; reflexivity.
       + apply set_path_none in Sp. congruence.
     - assert (Q : l_query L = "") by (unfold nonempty in Nq; apply negb_false_iff, String.eqb_eq in Nq; exact Nq).
       rewrite Q. assert (A : forall x : string, x ++ "" = x) by (intro x; induction x as [|c r IH]; [reflexivity | cbn; rewrite IH; reflexivity]).
@@ -1650,7 +1650,7 @@ Proof.
       rewrite (valid_encoded_no_qmark _ Hv).
       pose proof (escpath_wire_wf _ _ Hs Hv Hu) as E. unfold escpath_of_wire in E.
       destruct (GoUrl.set_path (l_rawpath L)) as [[pa rp]|] eqn:Sp.
-      + rewrite E. reflexivity.
+      + rewrite E. destruct fixed10; reflexivity.
       + apply set_path_none in Sp. congruence. }
   rewrite P. cbn [fst snd]. rewrite (nonempty_slash _ Hs). rewrite G.
   unfold scheme_of. destruct (nonempty (l_query L)) eqn:Nq; [reflexivity|].
@@ -1663,14 +1663,16 @@ Definition w10_req (q : string) : lreq :=
      l_hdrs := []; l_body := ""; l_peer := "10.0.0.1"; l_pack := PackRaw; l_qpath := false |}.
 Lemma F10_refuted :
   wf_lreqb (w10_req "b=2&a=1") = true /\ g_F10 (w10_req "b=2&a=1") = true /\
-  v_query (view_direct (w10_req "b=2&a=1")) = "b=2&a=1" /\ v_query (view_tp (w10_req "b=2&a=1")) = "a=1&b=2" /\
-  v_query (view_tp (w10_req "q=a%20b")) = "q=a+b" /\ v_query (view_tp (w10_req "a=1;b=2")) = "" /\
-  g_F10 (w10_req "a=1&b=2") = false /\ url_parts (view_tp (w10_req "a=1&b=2")) = url_parts (view_direct (w10_req "a=1&b=2")).
+  v_query (view_direct (w10_req "b=2&a=1")) = "b=2&a=1" /\ v_query (view_tp false (w10_req "b=2&a=1")) = "a=1&b=2" /\
+  v_query (view_tp false (w10_req "q=a%20b")) = "q=a+b" /\ v_query (view_tp false (w10_req "a=1;b=2")) = "" /\
+  g_F10 (w10_req "a=1&b=2") = false /\ url_parts (view_tp false (w10_req "a=1&b=2")) = url_parts (view_direct (w10_req "a=1&b=2")) /\
+  url_parts (view_tp true (w10_req "b=2&a=1")) = url_parts (view_direct (w10_req "b=2&a=1")) /\
+  v_query (view_tp true (w10_req "a=1;b=2")) = "a=1;b=2".
 Proof. repeat split; vm_compute; reflexivity. Qed.
 
-(** C13-F11 (open): Envoy conveys the request target the documented way (query inside [path]): grpcv3
-    looks the rule up with "?x=1" glued to the last segment — a wildcard swallows it into the capture,
-    a literal route misses — and the query is empty; the candidate repair removes the difference *)
+(** C13-F11 (fix: 9fe653a): Envoy conveys the request target the documented way (query inside [path]):
+    grpcv3 looked the rule up with "?x=1" glued to the last segment — a wildcard swallowed it into the
+    capture, a literal route missed — and the query was empty *)
 Definition w11_req : lreq :=
   {| l_method := "GET"; l_tls := false; l_host := "a.example.com"; l_rawpath := "/c0/abc"; l_query := "x=1";
      l_hdrs := []; l_body := ""; l_peer := "10.0.0.1"; l_pack := PackRaw; l_qpath := true |}.
@@ -1680,12 +1682,13 @@ Definition w11_find : lview -> option (rule * list (string * string)) :=
             else if String.eqb (lk_path lv) "/c0/abc?x=1" then Some (w11_rule, [("name", "abc?x=1")]) else None.
 Definition w11_find_literal : lview -> option (rule * list (string * string)) :=
   fun lv => if String.eqb (lk_path lv) "/c0/abc" then Some (w11_rule, []) else None.
+Definition tree_F11 := set_F11 false all_fixed.
 Lemma F11_refuted :
-  wf_lreqb w11_req = true /\ g_F11 w11_req = true /\ guards_fire w_decode w11_find repo_now w11_req = true /\
-  s_handover (serve_decision w_decode w11_find repo_now w11_req) = Some {| ho_headers := [("X-User", "abc"); ("X-Q", "x=1")]; ho_cookies := [] |} /\
-  s_handover (serve_envoy w_decode w11_find repo_now w11_req) = Some {| ho_headers := [("X-User", "abc?x=1"); ("X-Q", "")]; ho_cookies := [] |} /\
-  s_err (serve_decision w_decode w11_find_literal repo_now w11_req) = None /\
-  s_err (serve_envoy w_decode w11_find_literal repo_now w11_req) = Some ENoRule /\
-  guards_fire w_decode w11_find all_fixed w11_req = false /\
-  serve_decision w_decode w11_find all_fixed w11_req = serve_envoy w_decode w11_find all_fixed w11_req.
+  wf_lreqb w11_req = true /\ g_F11 w11_req = true /\ guards_fire w_decode w11_find tree_F11 w11_req = true /\
+  s_handover (serve_decision w_decode w11_find tree_F11 w11_req) = Some {| ho_headers := [("X-User", "abc"); ("X-Q", "x=1")]; ho_cookies := [] |} /\
+  s_handover (serve_envoy w_decode w11_find tree_F11 w11_req) = Some {| ho_headers := [("X-User", "abc?x=1"); ("X-Q", "")]; ho_cookies := [] |} /\
+  s_err (serve_decision w_decode w11_find_literal tree_F11 w11_req) = None /\
+  s_err (serve_envoy w_decode w11_find_literal tree_F11 w11_req) = Some ENoRule /\
+  guards_fire w_decode w11_find repo_now w11_req = false /\
+  serve_decision w_decode w11_find repo_now w11_req = serve_envoy w_decode w11_find repo_now w11_req.
 Proof. repeat split; vm_compute; reflexivity. Qed.
